@@ -19,7 +19,9 @@ CHECKS = {
         "context and from inside running actions) for run-once, cancelled-never-runs, accounting and clock monotonicity over all bounded "
         "histories; seeded histories are executed on the real cmb_event_* API (incl. operations from inside actions, ties, extreme "
         "priorities/time scales, populations across growth thresholds) and every trace is validated by TLC against spec/EventQueueTrace.tla, "
-        "which demands the dispatch order, the clock, the current-event query inside actions and all handle queries after every operation.",
+        "which demands the dispatch order, the clock, the current-event query inside actions and all handle queries after every operation. "
+        "Events that processes wait for are covered by the kernel model (spec/Kernel.tla, configuration wev2) and by programs with "
+        "cmb_process_wait_event run on the real kernel, with the C01 rules of spec/KMon.tla (clock never goes back, no cancelled or finished event executes).",
    note="Trusted: TLC, hook H1 (handle of the dispatched event), the monotone code<->value maps of the harness. Histories are random beyond the "
         "model's bounds, not exhaustive. NaN times are out of scope.",
    technique="TLA+ model checking (TLC) of the abstract event queue + TLC trace validation of recorded API histories"),
